@@ -470,12 +470,25 @@ impl<'a> Run<'a> {
                 self.viol("C02", "tx-taker", at, "transaction taker id is not the given one".into());
             }
             match before.get(&m) {
-                None => self.viol(
-                    "C02",
-                    "maker-not-resting",
-                    at,
-                    format!("maker {} was not resting before the match", m.short()),
-                ),
+                None => {
+                    self.viol(
+                        "C02",
+                        "maker-not-resting",
+                        at,
+                        format!("maker {} was not resting before the match", m.short()),
+                    );
+                    if self.cancelled_once.contains(&m) {
+                        self.viol(
+                            "C07",
+                            "removed-order-traded",
+                            at,
+                            format!(
+                                "{} was cancelled / moved away earlier and not added again, yet it trades",
+                                m.short()
+                            ),
+                        );
+                    }
+                }
                 Some(o) => {
                     if t.taker_side != opposite(side_of(o.buy)) {
                         self.viol(
